@@ -135,9 +135,11 @@ def ctl_term(c):
         ve = st.get("verr") or {}
         pr = st.get("probe") or {}
         probe = 0 if not pr.get("kind") else (1 if pr.get("delivered") else 2)
-        out.append("(mkCtl %s %s %s %s %s %d %s %s)" % (C.cq_list(evs), C.cq_list(wr), obs(o, full=False), C.cq_bool(ve.get("expected", False)), C.cq_bool(ve.get("reported", False)), probe,
+        out.append("(mkCtl %s %s %s %s %s %d %s %s %s)" % (C.cq_list(evs), C.cq_list(wr), obs(o, full=False), C.cq_bool(ve.get("expected", False)), C.cq_bool(ve.get("reported", False)), probe,
                                                      C.cq_list([S(f) for f in st.get("files") or []]),
-                                                     C.cq_list(["(%s, %s)" % (S(x[0]), S(x[1])) for x in st.get("pt") or []])))
+                                                     C.cq_list(["(%s, %s)" % (S(x[0]), S(x[1])) for x in st.get("pt") or []]),
+                                                     C.cq_list(["(%s, %d)" % (S("%s/%s" % (KIND_OF_RESOURCE.get(w["resource"], w["resource"]), w["key"])), REASON_CODE.get(w["reason"], 9))
+                                                                for w in st["writes"] if w.get("reason")])))
     ld = c.get("leader") or {"writes": [], "policies": []}
     pol_class = {p["key"]: p["class"] for p in ld["policies"]}
     lw = [S("%s/%s" % (KIND_OF_RESOURCE.get(w["resource"], w["resource"]), w["key"])) for w in ld["writes"] if w["resource"] != "policies"]
@@ -213,3 +215,38 @@ TRUSTED = [
     "API-server assumptions enforced by the generator: UIDs of simultaneously existing objects are distinct, UID and creationTimestamp are immutable, "
     "generation moves with every spec change (not across delete-and-recreate)",
 ]
+
+
+# row layout of Arb.Cases.ctl_case
+CID, DX, DS, DC, DF, CNEV, DD, DK, DL, DFILES, DPT, DST, DSTC = range(13)
+
+
+def judge_delivery(run, cases, rows, pid, why):
+    """every event is offered to the real informer handler of its kind; one that differs from the last event about the
+    object must reach the sync queue (used by the checks whose property depends on the controller seeing every change)"""
+    for c in cases:
+        if c.get("error") or c["id"] not in rows:
+            continue
+        r = rows[c["id"]]
+        if r[DD] != 0:
+            ev = c["histories"][0]["events"][r[DD] - 1]
+            pr = c["ctl"][r[DD] - 1].get("probe") or {}
+            run.failing({"kind": "event-not-delivered", "event_kind": ev["spec"]["kind"]}, [c],
+                        "%s: at step %d of case %d the real informer handler drops a %s event (%s) about %s %s/%s that differs from the last one about that object (%s): %s"
+                        % (pid, r[DD], c["id"], pr.get("kind"), ev.get("note"), ev["spec"]["kind"], ev["spec"].get("ns"), ev["spec"].get("name"), pr.get("note") or "new UID, class, spec or annotations", why),
+                        theorem="Arb.Cases.delivery_code")
+
+
+def judge_files(run, cases, rows, pid):
+    for c in cases:
+        if c.get("error") or c["id"] not in rows:
+            continue
+        r = rows[c["id"]]
+        if r[DFILES] != 0:
+            st = c["ctl"][r[DFILES] - 1]
+            ev = c["histories"][0]["events"][r[DFILES] - 1]
+            served = sorted("%s %s/%s" % (x["k"], (x.get(x["k"]) or {}).get("meta", {}).get("ns"), (x.get(x["k"]) or {}).get("meta", {}).get("name")) for x in st["res"])
+            run.failing({"kind": "files-vs-served", "level": "controller"}, [c],
+                        "%s: after step %d of case %d (%s %s %s/%s through the real lbc.sync, processChanges and Configurator) the configuration files that exist are not one per active resource: files %s, active %s"
+                        % (pid, r[DFILES], c["id"], ev["op"], ev["spec"]["kind"], ev["spec"].get("ns"), ev["spec"].get("name"), json.dumps(st["files"]), json.dumps(served)),
+                        theorem="Arb.Cases.files_ok")
